@@ -1171,13 +1171,42 @@ func c13MaxLen(k int, thorough bool) int {
 	return 4
 }
 
+// c13Probe compiles a fixed one-nonterminal grammar over 'a'..'d' with the real compiler and reports
+// whether N0 derives the given string in the real expanded rules.
+func c13Probe(rule string, word string) (derives bool, ok bool) {
+	text := "language c13p(go);\n\nlang = \"c13p\"\npackage = \"gp/c13p\"\n\n::lexer\n\n'a': /a/\n'b': /b/\n'c': /c/\n'd': /d/\n\n::parser\n\n%input N0;\n\nN0 : " + rule + " ;\n"
+	g, _ := c13Compile(text)
+	real, _ := c13Observe(g, []string{"N0"})
+	if real == nil {
+		return false, false
+	}
+	var w []int
+	for _, ch := range word {
+		w = append(w, 2+int(ch-'a'))
+	}
+	return c13DerivesAll(real.full, w)(real.pinned[0]), true
+}
+
 func c13(c *Ctx) {
 	findings := os.Getenv("VERIF_FINDINGS") != ""
+	// Probes of the two known defect classes on fixed witnesses; a class is kept out of the random stream
+	// only while its probe shows the defect in the code under test.
+	emptySetBroken, aliasBroken := false, false
+	if d, ok := c13Probe("'a' set('a' & 'b') 'c'", "ac"); ok && d {
+		emptySetBroken = true
+		c.Violate("[C13-empty-set] a set(...) that resolves to no terminal becomes an empty rule (syntax/set.go ResolveSets: Choice[Empty]): the expanded rules derive \"a c\" although the notation denotes no string (a choice of zero terminals); Lean: C13_empty_set_counterexample", "N0: 'a' set('a' & 'b') 'c';  string: a c")
+	}
+	if d, ok := c13Probe("set(~'c' & ('a' | 'c')) 'b'", "cb"); ok && d {
+		aliasBroken = true
+		c.Violate("[C13-set-intersect-alias] set(~'c' & ('a' | 'c')) resolves to {'a','c'} instead of {'a'} (util/set/closure.go slowClosure: the running intersection aliases the shared buffer; same defect as [C25-closure-buf-alias]): the expanded rules derive \"c b\"", "N0: set(~'c' & ('a' | 'c')) 'b';  string: c b")
+	}
+	c.Extra["probe_empty_set_defect_present"] = emptySetBroken
+	c.Extra["probe_set_intersect_alias_defect_present"] = aliasBroken
 	c.Rule = "random surface trees of the rule notation over 2-4 single-character terminals and 1-4 nonterminals (rules of 0-4 parts, depth <= 3: optional parts, nested choices and sequences in parentheses, + and * quantifiers, (.. separator ..)+/* lists with 1-2 separator terminals, lists of lists, set(...) with terminals / first / last / any / | & ~, lookahead markers, state markers, arrows, %prec, assignments, commands, Xopt references); " +
 		"path tm: rendered as .tm text and compiled by the REAL compiler.Compile (LALR conflicts ignored, the rules are read from grammar.Parser.Rules); path model: the same trees as syntax.Model values with a random subset of lists right-recursive, through the real Expand/ResolveSets/generateTables (hook VerifModelGrammar); " +
 		"per grammar: struct (real rules vs Lean mirror, canonical form up to renaming of extracted nonterminals and rule order; mid-rule action nonterminals erased), sem (every string up to length 4-7 depending on alphabet size, every user nonterminal: brute-force derivability in the REAL rules vs the denotation evaluated in Lean), mem (random sentences of the real rules and their mutations, length up to 12); non-trivial = uses at least one extended construct, distinct by grammar text. " +
-		"Known defect classes kept out of the default stream (VERIF_FINDINGS=1 includes and flags them): [C13-empty-set] a set(...) that resolves to no terminal becomes an EMPTY RULE (derives the empty string) instead of deriving nothing; [C13-set-intersect-alias] an intersection whose first operand is a complement, e.g. set(~'c' & ('a' | 'c')), resolves to wrong terminals (util/set closure reuses its buffer). Also skipped: complements of nonterminal-dependent sets (may be cyclic); grammars on which the compiler panics (mid-rule action inside a list element next to a nested list; a C22 matter) are counted as rejected."
-	nG := c.N(90, 1500)
+		"Known defect classes, each probed on ONE fixed witness at start-up, reported through that witness and kept out of the random stream only while the probe shows the defect (VERIF_FINDINGS=1 keeps them in): [C13-empty-set] a set(...) that resolves to no terminal becomes an EMPTY RULE (derives the empty string) instead of deriving nothing; [C13-set-intersect-alias] an intersection whose first operand is a complement, e.g. set(~'c' & ('a' | 'c')), resolves to wrong terminals (util/set closure reuses its buffer). Also skipped: complements of nonterminal-dependent sets (may be cyclic); grammars on which the compiler panics (mid-rule action inside a list element next to a nested list; a C22 matter) are counted as rejected."
+	nG := c.N(90, 1000)
 	thorough := c.Tier == "thorough"
 	panicNoted := false
 	for gi := 0; gi < nG; gi++ {
@@ -1222,12 +1251,12 @@ func c13(c *Ctx) {
 				aliasSet = true
 			}
 		}
-		if emptySet && !findings {
-			c.Count("skipped: empty set (known class)")
+		if emptySet && emptySetBroken && !findings {
+			c.Count("skipped: empty set (known class, probe shows the defect)")
 			continue
 		}
-		if aliasSet && !findings {
-			c.Count("skipped: intersection with a complement as first operand (known class of util/set)")
+		if aliasSet && aliasBroken && !findings {
+			c.Count("skipped: intersection with a complement as first operand (known class of util/set, probe shows the defect)")
 			continue
 		}
 		var g *grammar.Grammar
